@@ -69,7 +69,16 @@ Definition run_dir (v : val) : val :=
                   ++ (if val_eqb hdrs (of_list (of_pair VB VB) (node_headers expect_gz auto)) then [] else [dclause "encoding-headers"])
               | VL [VN 1] =>
                   (match lookup_open table path with ONotFound => [] | _ => [dclause "not-found-but-the-file-opens"] end)
-              | VL [VN 2; _] => []
+              | VL [VN 2; _] =>
+                  (* "or fails the way opening that file fails": an error although the file opens is
+                     tolerated only when the sibling that would have been substituted is there but fails to
+                     open -- not when it cannot exist (its name is too long: kind 5) or is simply absent *)
+                  let sibling_fails := auto && sg && match lookup_open table (path ++ DOT_GZ) with
+                                                      | OError k => negb (k =? 5) | _ => false end in
+                  (match lookup_open table path with
+                   | OOpened _ _ => if sibling_fails then [] else [dclause "fails-although-the-file-opens"]
+                   | _ => []
+                   end)
               | _ => [dclause "panic-or-malformed"]
               end in
           (* which of its defects a rejected path is blamed for is not constrained ("returns an error"):
